@@ -213,8 +213,9 @@ func (c *Collection) handleReplaceByName() (err error) {
 				return fmt.Errorf("cannot replace '%s', %s refers to itself", name, n.fm)
 			}
 			firstMove, lastMove := snip(n, func(n *node) bool { return n.fm.replaceByName == name })
-			if lastSnip.next == firstMove {
-				// adjacent blocks, snip before move, hack a reconnect
+			if inBlock(lastSnip.next, firstMove, lastMove) {
+				// the node that followed the target moves too (adjacent blocks):
+				// reconnect to what follows the moving block
 				lastSnip.next = lastMove.next
 			}
 
